@@ -4,6 +4,9 @@ HDR = ("From Coq Require Import Uint63.\nFrom Coq Require Import List ZArith Boo
        "From WH Require Import lib.Bytes lib.Wire gen.Extracted model.Vaa.\n"
        "Import ListNotations.\nOpen Scope Z_scope.\n")
 
+# header for case files that evaluate the Gallina Keccak-256 (lib/Keccak.v)
+HDR_K = HDR.replace("model.Vaa.", "model.Vaa lib.Keccak.")
+
 def gsig(s):
     return "{| s_idx := %d; s_data := B %s |}" % (s["i"], core.gbytes(s["d"]))
 
